@@ -220,6 +220,12 @@ func runC15(r *simrt.Run, tier Tier) Outcome {
 	}
 	prog := GenProgram(r, o)
 	src := prog.Source(true)
+	hasTransforms := false
+	for _, rule := range prog.Rules {
+		if rule.Do != nil || len(rule.Lets) > 0 {
+			hasTransforms = true
+		}
+	}
 	r.Logf("program:\n%s", src)
 	evalOrder := r.Choose(simrt.NumOrderPolicies, "c15.evalorder")
 	evalSeed := uint64(r.Choose(1<<16, "c15.evalseed"))
@@ -335,8 +341,8 @@ func runC15(r *simrt.Run, tier Tier) Outcome {
 			}
 			if !anyComplete {
 				incomplete++
-				if !recordedMode {
-					return Violation("C15/no-complete-proof", "stored fact %v of a transform-free program has only partial proofs\n%s", g, ctx)
+				if !recordedMode || !hasTransforms {
+					return Violation("C15/no-complete-proof", "stored fact %v of a transform-free program has only partial proofs (mode %s)\n%s", g, mode, ctx)
 				}
 			}
 		}
